@@ -261,6 +261,18 @@ class RawCls(Node):
         return self.ivs
 
 
+class Opaque(Node):
+    """A construct given by its source text whose meaning is given by an equivalent AST (used for v-mode
+    class sets with string alternatives: text = the class expression, node = the alternation it denotes)."""
+
+    def __init__(self, text, node):
+        self.text = text
+        self.node = node
+
+    def src(self, fl):
+        return self.text
+
+
 class Start(Node):
     def src(self, fl):
         return "^"
@@ -378,6 +390,8 @@ def number_groups(node, counter=None, names=None):
             counter[0] += 1
             names.append(node.name or "")
         number_groups(node.body, counter, names)
+    elif isinstance(node, Opaque):
+        number_groups(node.node, counter, names)
     elif isinstance(node, (Look, Rep, Quant)):
         number_groups(node.body, counter, names)
     elif isinstance(node, (Seq, Alt)):
@@ -392,6 +406,8 @@ def groups_in(node):
         if node.cap:
             out.append(node.idx)
         out += groups_in(node.body)
+    elif isinstance(node, Opaque):
+        out += groups_in(node.node)
     elif isinstance(node, (Look, Rep, Quant)):
         out += groups_in(node.body)
     elif isinstance(node, (Seq, Alt)):
@@ -736,6 +752,8 @@ class Case:
             elif isinstance(nd, RawCls):
                 for a, b in nd.ivs[:6]:
                     out.update([a, b, min(b + 1, CP_MAX), max(a - 1, 0)])
+            elif isinstance(nd, Opaque):
+                walk(nd.node)
             elif isinstance(nd, (Group, Look, Rep, Quant)):
                 walk(nd.body)
             elif isinstance(nd, (Seq, Alt)):
